@@ -1102,7 +1102,10 @@ class FuncTranslator:
             if T is not None:
                 sz = em.size_align(T)[0]
                 if sz > 0:
-                    callexpr = '((uint8_t*)verif_alloc_check(malloc(sizeof(%s) * ((uint64_t)(%s) / %d))))' % (em.ctype(T), V_(args[0]), sz)
+                    if args[0].kind == 'int':
+                        callexpr = '((uint8_t*)verif_alloc_check(malloc(sizeof(%s) * ((uint64_t)(%s) / %d))))' % (em.ctype(T), V_(args[0]), sz)
+                    else:   # non-constant element count (vector growth after a path merge): see VERIF_TALLOC in the prelude
+                        callexpr = '((uint8_t*)verif_alloc_check(VERIF_TALLOC(%s, ((uint64_t)(%s) / %d))))' % (em.ctype(T), V_(args[0]), sz)
         if R and not isinstance(I.ty, TVoid):
             out.append('%s = %s;' % (R, callexpr))
         else:
@@ -1262,7 +1265,12 @@ class FuncTranslator:
             if isinstance(r, TArr): return False
             sz = em.size_align(T)[0]; ct = em.ctype(T)
             if sz == 0: return False
-            if isinstance(r, TInt) and kind != 'memset':
+            ND = s.defs.get(n.name) if n.kind == 'local' else None
+            known_multiple = ND is not None and ((ND.op == 'shl' and ND.b.kind == 'int' and 0 <= ND.b.val < 64 and (1 << ND.b.val) % sz == 0) or
+                                                 (ND.op == 'mul' and sz & (sz - 1) == 0 and any(o.kind == 'int' and o.val % sz == 0 for o in (ND.a, ND.b))))
+            if known_multiple:
+                pass   # length is syntactically `x << k` / `x * c` with sz | 2^k resp. sz | c (e.g. count * sizeof(T)): no byte-wise fallback, no check needed
+            elif isinstance(r, TInt) and kind != 'memset':
                 # scalar integer element (e.g. memcpy(&word, p, len) with len < sizeof(word), util/obfuscation.h XorWord): a length that is
                 # not a multiple of the element size is legal; copy bytes in that case instead of asserting the translator assumption
                 fn = 'll_memmove' if kind == 'memmove' else 'll_memcpy'
@@ -1434,7 +1442,8 @@ static inline int64_t SDIV64(int64_t a, int64_t b) { return a / b; }
 #define VERIF_PTRDIFF(a, b) (((uint8_t*)(a) == (uint8_t*)(b)) ? (int64_t)0 : (int64_t)((uint8_t*)(a) - (uint8_t*)(b)))
 /* relational pointer comparison: inside one object the address order is the offset order (lets symex decide `pc < end` for concrete pointers) */
 #ifdef __CPROVER__
-#define VERIF_PTRCMP(a, op, b) (__CPROVER_same_object((a), (b)) ? (__CPROVER_POINTER_OFFSET(a) op __CPROVER_POINTER_OFFSET(b)) : ((uintptr_t)(a) op (uintptr_t)(b)))
+/* a null operand: NULL has address 0 and every object a non-zero address, so the order is decided by the two null tests (lets symex fold `nullptr < &obj`, e.g. std::map keys) */
+#define VERIF_PTRCMP(a, op, b) (((a) == 0 || (b) == 0) ? ((int)((a) != 0) op (int)((b) != 0)) : __CPROVER_same_object((a), (b)) ? (__CPROVER_POINTER_OFFSET(a) op __CPROVER_POINTER_OFFSET(b)) : ((uintptr_t)(a) op (uintptr_t)(b)))
 #else
 #define VERIF_PTRCMP(a, op, b) ((uintptr_t)(a) op (uintptr_t)(b))
 #endif
@@ -1443,6 +1452,14 @@ static inline __int128 SDIV128(__int128 a, __int128 b) { return a / b; }
 static inline __int128 SREM128(__int128 a, __int128 b) { return a % b; }
 uint8_t* ll_memcpy(uint8_t*, uint8_t*, uint64_t); uint8_t* ll_memmove(uint8_t*, uint8_t*, uint64_t); uint8_t* ll_memset(uint8_t*, uint32_t, uint64_t);
 static inline void* verif_alloc_check(void* p) { __CPROVER_assume(p != 0); return p; }
+/* typed allocation whose element count is not a compile-time constant (vector growth: the count is symbolic after a path merge, and a symbolic-size
+   array of structs is very expensive). Opt-in -DVERIF_TALLOC_MAX=k: the count is ASSERTED to be <= k and exactly k elements are allocated, so symex sees one
+   constant-size object (over-allocation is unobservable; a feasible larger allocation fails the assertion; same idea as VERIF_ALLOC_MAX in rt.c) */
+#if defined(VERIF_TALLOC_MAX) && defined(__CPROVER__)
+#define VERIF_TALLOC(T, n) ({ uint64_t n_ = (n); __CPROVER_assert(n_ <= VERIF_TALLOC_MAX, "typed allocation within the harness's declared VERIF_TALLOC_MAX"); __CPROVER_assume(n_ <= VERIF_TALLOC_MAX); malloc(sizeof(T) * VERIF_TALLOC_MAX); })
+#else
+#define VERIF_TALLOC(T, n) malloc(sizeof(T) * (n))
+#endif
 extern int verif_exc_pending; extern void* verif_exc_obj; extern void* verif_exc_type;
 struct verif_ti { void* vt; const char* name; struct verif_ti* base; };
 int verif_exc_matches(void* tinfo); long verif_typeid_for(void* tinfo);
